@@ -75,8 +75,10 @@ class Engine(ExprMixin, CallMixin, StmtMixin):
     def contract(self, key, **kw):
         uses = kw.pop("uses", ())
         defaults = kw.pop("defaults", None)
+        hints = kw.pop("cover_hints", ())
         c = Contract(key, **kw)
         c.uses = tuple(uses)
+        c.cover_hints = list(hints)
         c.defaults = defaults
         c._defaults = None
         if key in self.contracts:
@@ -185,7 +187,8 @@ class Engine(ExprMixin, CallMixin, StmtMixin):
         req = [self.spec(r, st, old=entry) for r in list(c.requires) + list(c.entry_assume)]
         st = st.assume(*req)
         # vacuity guard: the precondition must be satisfiable
-        self.emit("cover", "requires-satisfiable", node, st, z3.BoolVal(False), expect="sat")
+        hints = [self.spec(h, st, old=entry) for h in getattr(c, "cover_hints", [])]
+        self.emit("cover", "requires-satisfiable", node, st.assume(*hints), z3.BoolVal(False), expect="sat")
         self.entry_measure = None
         if c.decreases is not None:
             self.entry_measure = self.tuple_items(self.spec(c.decreases, st, want_bool=False))
@@ -212,6 +215,10 @@ class Engine(ExprMixin, CallMixin, StmtMixin):
                 raise Unsupported("lru_cache on a function whose contract declares no memo ghost", node)
             outcomes.extend(self.exec_block(body, st))
         n_paths = 0
+        exits = [o.st.pc for o in outcomes if o.kind in ("next", "return")]
+        if exits:
+            ob = self.emit("cover-any", "some-normal-exit-reachable", node, st, z3.BoolVal(False), expect="sat")
+            ob.alts = exits
         for o in outcomes:
             n_paths += 1
             if o.kind in ("next", "return"):
